@@ -1008,9 +1008,8 @@ def child_run(job: dict) -> dict:  # pylint: disable=too-many-branches,too-many-
         k = op["op"]
         outcome = ""
         if k == "jump":
-            cur = id_generator._ids.get(op["prefix"], 0)  # pylint: disable=protected-access
-            if op["to"] > cur:
-                id_generator._ids[op["prefix"]] = op["to"]  # pylint: disable=protected-access
+            from .observe import COUNTERS  # pylint: disable=import-outside-toplevel
+            if COUNTERS.jump(op["prefix"], op["to"]):
                 faults["jump"] += 1
             prehist.append(f"j{op['prefix']}{op['to']}")
         elif k == "clear_cache":
